@@ -93,6 +93,7 @@ fn account(st: &mut Stats, w: &World, e: &Exec, c19_set: &mut HashSet<u64>, c09_
     st.add("ops.compile", cs.compile_ops);
     st.add("ops.burst", cs.bursts);
     st.add("ops.iterator_adaptors", cs.adaptors);
+    st.add("ops.kept_matches_rechecked", cs.kept_matches_rechecked);
     st.add("faults.closure_panic", cs.closure_panics);
     st.add("ops.next", cs.nexts);
     st.add("ops.matches", cs.matches);
